@@ -523,3 +523,67 @@ pub fn minimize_codes(mut c: [u16; 3], target: [u16; 3], fails: impl Fn([u16; 3]
 pub fn minimize_f32(x: f32, lo: f32, hi: f32, fails: impl Fn(f32) -> bool) -> f32 {
     minimize_px([x, 0.0, 0.0], lo, hi, |p| p[1] == 0.0 && p[2] == 0.0 && fails(p[0]))[0]
 }
+
+// ---------------------------------------------------------------- adjacency-aware batches
+
+/// Rewrites a generated batch so that neighbouring pixels are *related*: equal, equal in one or two
+/// components, or equal to the conversion result of the previous pixel (`feedback`). Conversions
+/// are specified to be pointwise, so none of this may change any per-pixel result; caches keyed on
+/// the previous pixel, on its in-place overwritten value or on part of it show up only on such
+/// images. `in_domain` keeps fed-back values inside the property's input domain.
+pub fn correlate_px(px: &mut [[f32; 3]], seed: u64, feedback: Option<&dyn Fn([f32; 3]) -> Option<[f32; 3]>>, in_domain: &dyn Fn([f32; 3]) -> bool) {
+    let mut e = Expand(seed ^ 0xC0_44E1);
+    for i in 1..px.len() {
+        let prev = px[i - 1];
+        match e.below(10) {
+            0 => px[i] = prev,
+            1 => {
+                // share two components
+                let k = e.below(3) as usize;
+                let keep = px[i][k];
+                px[i] = prev;
+                px[i][k] = keep;
+            }
+            2 => {
+                // share one component
+                let k = e.below(3) as usize;
+                px[i][k] = prev[k];
+            }
+            3 | 4 => {
+                if let Some(f) = feedback {
+                    if let Some(o) = f(prev) {
+                        if in_domain(o) {
+                            px[i] = o;
+                        }
+                    }
+                }
+            }
+            5 => {
+                // rotate the previous pixel's components
+                let r = [prev[1], prev[2], prev[0]];
+                if in_domain(r) {
+                    px[i] = r;
+                }
+            }
+            _ => {}
+        }
+    }
+}
+
+/// image shapes: single pixels and tiny images often (whole-image fast paths depend on *all* pixels),
+/// otherwise w x h up to the given maxima
+pub fn shape_from(seed: u64, max_w: usize, max_h: usize) -> (usize, usize) {
+    let mut e = Expand(seed ^ 0x5AA9E);
+    match e.below(10) {
+        0 => (1, 1),
+        1 => {
+            if e.below(2) == 0 {
+                (2, 1)
+            } else {
+                (1, 2)
+            }
+        }
+        2 => (1 + e.below(3) as usize, 1 + e.below(3) as usize),
+        _ => (1 + e.below(max_w as u64) as usize, 1 + e.below(max_h as u64) as usize),
+    }
+}
